@@ -8,6 +8,7 @@ volatile int g_curOp = -1;
 UbReport g_ub = { false, "", "", 0, "" };
 bool g_ubCollect = false;
 unsigned long long g_curRun = 0, g_curSeed = 0;
+unsigned g_pristineEvery = 1;
 
 void ubAfterOp(Verdict& v, int opIndex, const std::string& opLine) {
   if (!g_ub.pending) return;
